@@ -82,7 +82,11 @@ func runServeLoop6(c *Ctx, rounds int) {
 			switch i % 3 { // short, short, long: lengths differ a lot from one datagram to the next
 			case 2:
 				m.AddOption(dhcpv6.OptRequestedOption(23, 24, 59, 60))
-				m.AddOption(&dhcpv6.OptionGeneric{OptionCode: 16, OptionData: r.Bytes(20 + r.Intn(400))})
+				vlen := 20 + r.Intn(400)
+				if r.Pct(12) {
+					vlen = []int{4000, 4096, 5000, 9000, 20000, 60000}[r.Intn(6)] // datagrams far beyond one Ethernet frame, up to the UDP limit
+				}
+				m.AddOption(&dhcpv6.OptionGeneric{OptionCode: 16, OptionData: r.Bytes(vlen)})
 				m.AddOption(dhcpv6.OptElapsedTime(0))
 				if m.MessageType == dhcpv6.MessageTypeSolicit {
 					m.AddOption(&dhcpv6.OptionGeneric{OptionCode: dhcpv6.OptionRapidCommit}) // last option of the longest datagram
@@ -98,7 +102,11 @@ func runServeLoop6(c *Ctx, rounds int) {
 		mu.Lock()
 		got = map[dhcpv6.TransactionID][][]byte{}
 		mu.Unlock()
-		for _, raw := range dgs { // back to back
+		for i, raw := range dgs { // back to back
+			if i == 1 {
+				conn.Write([]byte{})  // an empty datagram and a one-byte one in between: dropped, and nothing else changes
+				conn.Write([]byte{1})
+			}
 			conn.Write(raw)
 		}
 		deadline := time.Now().Add(3 * time.Second)
@@ -207,7 +215,11 @@ func runServeLoop4(c *Ctx, rounds int) {
 		mu.Lock()
 		got = map[dhcpv4.TransactionID][][]byte{}
 		mu.Unlock()
-		for _, raw := range dgs {
+		for i, raw := range dgs {
+			if i == 1 {
+				conn.Write([]byte{})
+				conn.Write([]byte{1})
+			}
 			conn.Write(raw)
 		}
 		deadline := time.Now().Add(3 * time.Second)
